@@ -469,6 +469,92 @@ func (g *histGen) ccGridLine() string {
 	return b.String()
 }
 
+// twinLine: two references that agree in every valued parameter and differ ONLY in a boolean flag (+south,
+// +czech, +R_A), used side by side in one history, in either order of first use, at points where their
+// answers must differ (southern-hemisphere points for utm: 10 000 km of false northing).  Anything the
+// package keeps per "parameter set" across references must tell them apart.  The implementation side takes
+// the fresh transformer's answer for such a line from a process of its own (hist.go, freshProcess).
+func (g *histGen) twinLine(n int) string {
+	r := g.r
+	var base, flag string
+	var lon, lat float64
+	switch n % 4 {
+	case 0, 1:
+		zone := r.Range(1, 60)
+		dat := []string{"+datum=WGS84", "+ellps=GRS80 +towgs84=0,0,0,0,0,0,0 +units=m", "+ellps=intl +towgs84=-87,-98,-121", "+ellps=bessel +towgs84=598.1,73.7,418.2,0.202,0.045,-2.455,6.7", "+ellps=WGS84"}[r.Intn(5)]
+		base, flag = fmt.Sprintf("+proj=utm +zone=%d %s", zone, dat), "+south"
+		lon, lat = float64(zone*6-183), -float64(r.Range(1, 70))
+		if r.Chance(0.2) {
+			lat = -lat
+		}
+	case 2:
+		base, flag = "+proj=krovak +lat_0=49.5 +lon_0=24.83333333333333 +alpha=30.28813972222222 +k=0.9999 +x_0=0 +y_0=0 +ellps=bessel +pm=greenwich +units=m +towgs84=570.8,85.7,462.8,4.998,1.587,5.261,3.56", "+czech"
+		lon, lat = 15, 50
+	default:
+		base = []string{"+proj=merc +lon_0=0 +k=1 +x_0=0 +y_0=0 +ellps=WGS84 +datum=WGS84 +units=m", "+proj=aea +lat_1=29.5 +lat_2=45.5 +lat_0=23 +lon_0=-96 +x_0=0 +y_0=0 +ellps=GRS80 +datum=NAD83",
+			"+proj=lcc +lat_1=33 +lat_2=45 +lat_0=40 +lon_0=-97 +x_0=0 +y_0=0 +ellps=clrk66 +datum=WGS84", "+proj=utm +zone=33 +ellps=bessel +towgs84=598.1,73.7,418.2,0.202,0.045,-2.455,6.7"}[r.Intn(4)]
+		flag = "+R_A"
+		lon, lat = []float64{20, -96, -97, 15}[r.Intn(4)], 35
+	}
+	ll := []string{"+proj=longlat +datum=WGS84", "WGS84", "+proj=longlat +datum=potsdam"}[r.Intn(3)]
+	defs := []string{ll, base, base + " " + flag}
+	if r.Chance(0.5) { // which twin comes first in the pool (and is usually used first)
+		defs[1], defs[2] = defs[2], defs[1]
+	}
+	cat := []srDef{{defs[0], lon, lat, "wgs"}, {defs[1], lon, lat, "wgs"}, {defs[2], lon, lat, "wgs"}}
+	pairs := [][2]int{{0, 1}, {0, 2}, {1, 0}, {2, 0}, {1, 2}, {2, 1}}
+	nC := r.Range(4, 16)
+	var b strings.Builder
+	fmt.Fprintf(&b, "h %d", len(defs))
+	for _, d := range defs {
+		b.WriteString(" " + enc(d))
+	}
+	fmt.Fprintf(&b, " | %d", len(pairs))
+	for _, p := range pairs {
+		fmt.Fprintf(&b, " %d %d", p[0], p[1])
+	}
+	fmt.Fprintf(&b, " | %d", nC)
+	first := r.Intn(len(pairs))
+	var px, py float64
+	for i := 0; i < nC; i++ {
+		t := r.Intn(len(pairs))
+		switch i {
+		case 0:
+			t = first
+		case 1: // the mirror pair: same direction, the other twin
+			t = first ^ 1
+		}
+		var x, y float64
+		if i == 1 && first < 2 { // the same geographic point through both twins
+			x, y = px, py
+		} else if r.Chance(0.7) { // a point well inside the domain
+			x, y = lon+(r.Float()-0.5)*4, lat+(r.Float()-0.5)*2
+			if pairs[t][0] != 0 {
+				vproto.Safe(func() {
+					w, _ := proj.Parse("+proj=longlat +datum=WGS84")
+					sr, err := proj.Parse(defs[pairs[t][0]])
+					if err != nil {
+						return
+					}
+					tr, err := w.NewTransform(sr)
+					if err != nil || tr == nil {
+						return
+					}
+					if a, c, err := tr(x, y); err == nil {
+						x, y = a, c
+					}
+				})
+			}
+		} else {
+			x, y = g.input(defs[pairs[t][0]], cat[pairs[t][0]])
+		}
+		px, py = x, y
+		fmt.Fprintf(&b, " %d %s %s", t, vproto.F2H(x), vproto.F2H(y))
+	}
+	b.WriteString(" | 0")
+	return b.String()
+}
+
 func gen(seed uint64, tier string) {
 	out := bufio.NewWriter(os.Stdout)
 	defer out.Flush()
@@ -533,5 +619,13 @@ func gen(seed uint64, tier string) {
 		l := hg.line(i % 10)
 		secs := strings.Split(l, " | ")
 		emit("cc" + strings.TrimPrefix(strings.Join(secs[:3], " | "), "h"))
+	}
+	// twin references (differing only in a boolean flag); emitted last so that the lines above keep their seeds
+	nTw := 48
+	if tier == "thorough" {
+		nTw = 600
+	}
+	for i := 0; i < nTw; i++ {
+		emit(hg.twinLine(i))
 	}
 }
